@@ -67,6 +67,11 @@ MUTANTS = [
     ("c01-notetracker-by-code-only", DEV, "\treturn keyID{subHandler: ev.Source.Name, code: ev.Event.Code}", "\treturn keyID{code: ev.Event.Code}", ["C01", "C02", "C03"]),
     ("c01-learning-filter-all-axis-types", EVS, " &&\n\t\t(analog.MappingType == config.AnalogCC || analog.MappingType == config.AnalogPitchBend) {", " {", ["C01"]),
     ("c16-no-watchdog-for-mute-server", "internal/pkg/midi/device/open_rgb.go", "\t\tcase <-time.After(time.Millisecond * 500):\n\t\t\tc.Close()", "\t\tcase <-time.After(time.Hour):\n\t\t\tc.Close()", ["C16"]),
+    ("c08-first-event-deduped", EVS, "\tif seen && lastValue == value {", "\tif (seen || !seen) && lastValue == value {", ["C08", "C06"]),
+    ("c08-opposite-band-not-released", EVS, "\t\tif value < 0.49 {\n\t\t\td.AnalogNoteOff(identifier, ie)\n\t\t}\n\t\tif value > -0.49 {\n\t\t\td.AnalogNoteOff(identifierNeg, ie)\n\t\t}",
+     "\t\tif value < 0.49 && value > -0.5 {\n\t\t\td.AnalogNoteOff(identifier, ie)\n\t\t}\n\t\tif value > -0.49 && value < 0.5 {\n\t\t\td.AnalogNoteOff(identifierNeg, ie)\n\t\t}\n\t\tif value <= -0.5 {\n\t\t\tdefer d.AnalogNoteOff(identifier, ie)\n\t\t}\n\t\tif value >= 0.5 {\n\t\t\tdefer d.AnalogNoteOff(identifierNeg, ie)\n\t\t}", ["C08"]),
+    ("c07-repeat-value-stored-before-learning-filter", EVS, "\tshapedValue := value\n", "\tshapedValue := value\n\td.lastAnalogValue[ie.Source.Name][ie.Event.Code] = shapedValue\n", ["C07"]),
+    ("c20-id-of-first-discovered-handler", "internal/pkg/input/device.go", "\t\tsort.SliceStable(dis, func(i, j int) bool {", "\t\tsort.SliceStable(append([]DeviceInfo{}, dis...), func(i, j int) bool {", ["C20"]),
     ("c08-tracker-by-code-only", EVS, "identifier := fmt.Sprintf(\"%s/%d\", ie.Source.Name, ie.Event.Code)", "identifier := fmt.Sprintf(\"%d\", ie.Event.Code)", ["C08"]),
     ("c08-thresholds-swapped", EVS, "\t\tcase value > -0.49 && value < 0.49:\n\t\t\td.AnalogNoteOff(identifier, ie)", "\t\tcase value > -0.3 && value < 0.3:\n\t\t\td.AnalogNoteOff(identifier, ie)", ["C08"]),
     ("c08-noteoff-current-transposition", DEV, "\tnote, channel := noteAndChannel[0], noteAndChannel[1]\n\n\tevent := midi.NoteEvent(midi.NoteOff, channel, note, 0)",
